@@ -164,7 +164,9 @@ def main(argv=None):
 
         viol = []
         seen = set()
-        rdir = os.path.join(HERE, "replays", prop)
+        # runs against a scratch copy of the sources (VF_REPO: mutants) never overwrite the registered evidence / replays
+        outdir = os.path.join(os.environ["VF_REPO"], "vf_out") if os.environ.get("VF_REPO") else HERE
+        rdir = os.path.join(outdir, "replays", prop)
         for f in total.failures:
             if f["bucket"] in seen:
                 continue
@@ -213,8 +215,8 @@ def main(argv=None):
         }
         if total.errors:
             ev["coverage"]["harness_errors"] = [e[:2000] for e in total.errors[:5]]
-        os.makedirs(os.path.join(HERE, "evidence"), exist_ok=True)
-        with open(os.path.join(HERE, "evidence", "%s.json" % prop), "w") as fh:
+        os.makedirs(os.path.join(outdir, "evidence"), exist_ok=True)
+        with open(os.path.join(outdir, "evidence", "%s.json" % prop), "w") as fh:
             json.dump(ev, fh, indent=1, default=repr, ensure_ascii=True)
             fh.write("\n")
         print(
